@@ -1628,7 +1628,7 @@ def o_position_assembly(mir, tier, seed):
 
 # ---- C05: how areas of rings / members are combined
 
-@obligation('C05', 'area_assembly_real', 'for ANY real ring / member areas: Polygon::signed_area (0-3 holes, any hole orientations) = sign(shell) * (|shell| - sum |hole|), unsigned_area = its absolute value; MultiPolygon (0-3 members) signed = sum of the members\' signed areas, unsigned = sum of their absolute values; GeometryCollection sums its members\' signed resp. unsigned areas; Triangle::signed_area for ANY real vertices = half the shoelace determinant; Rect = width x height [get_linestring_area, the members\' own areas, Rect::width/height uninterpreted]')
+@obligation('C05', 'area_assembly_real', 'for ANY real ring / member areas: Polygon::signed_area (0-3 holes, any hole orientations) = sign(shell) * (|shell| - sum |hole|), unsigned_area = its absolute value; MultiPolygon (0-3 members) signed = sum of the members\' signed areas, unsigned = sum of their absolute values; GeometryCollection sums its members\' signed resp. unsigned areas; Triangle::signed_area for ANY real vertices = half the shoelace determinant (negative for clockwise vertices), unsigned_area its absolute value; Rect = width x height [get_linestring_area, the members\' own areas, Rect::width/height uninterpreted]')
 def o_area_assembly(mir, tier, seed):
     A = r'algorithm::area::<impl at [^>]*>::'
     T = RealTheory()
@@ -1672,9 +1672,14 @@ def o_area_assembly(mir, tier, seed):
                 npaths += done(outs, tot)
     # Triangle, Rect
     a, b, c = coord(T, 'ta'), coord(T, 'tb'), coord(T, 'tc')
-    ip = Interp(mir, T, EXTRA, {'re:geo_types::Triangle::<\\w+>::to_lines': lambda ip, d: [[list(a), list(b)], [list(b), list(c)], [list(c), list(a)]]})
-    outs = ip.call_fn(mir.find('geo', A + 'signed_area', sig=r'_1: &geo_types::Triangle<T>'), [Ref(lambda: ('triangle',))], z3.BoolVal(True))
-    npaths += done(outs, ((b[0] - a[0]) * (c[1] - a[1]) - (b[1] - a[1]) * (c[0] - a[0])) / 2)
+    textra = dict(EXTRA)
+    textra[r'<geo_types::Triangle<T> as (algorithm::)?area::Area<T>>::signed_area'] = ('geo', A + 'signed_area', r'_1: &geo_types::Triangle<T>')
+    textra[r'<geo_types::Triangle<T> as (algorithm::)?area::Area<T>>::unsigned_area'] = ('geo', A + 'unsigned_area', r'_1: &geo_types::Triangle<T>')
+    half_det = ((b[0] - a[0]) * (c[1] - a[1]) - (b[1] - a[1]) * (c[0] - a[0])) / 2
+    for meth, want in (('signed_area', half_det), ('unsigned_area', zabs(half_det))):
+        ip = Interp(mir, T, textra, {'re:geo_types::Triangle::<\\w+>::to_lines': lambda ip, d: [[list(a), list(b)], [list(b), list(c)], [list(c), list(a)]]})
+        outs = ip.call_fn(mir.find('geo', A + meth, sig=r'_1: &geo_types::Triangle<T>'), [Ref(lambda: ('triangle',))], z3.BoolVal(True))
+        npaths += done(outs, want)
     W, H = T.var('rect_width'), T.var('rect_height')
     for meth in ('signed_area', 'unsigned_area'):
         ip = Interp(mir, T, EXTRA, {'re:geo_types::Rect::<\\w+>::width': lambda ip, d: W, 're:geo_types::Rect::<\\w+>::height': lambda ip, d: H})
@@ -1999,6 +2004,53 @@ def o_locate(mir, tier, seed):
     return dict(theory='Real (nonlinear); no NaN / infinity in the reals (is_finite = true; T::infinity() an uninterpreted value above every distance)', functions=['LineLocatePoint for Line', 'LineLocatePoint for LineString', 'Point::dot'], paths=npaths, status=st, info=info, model=None, replay=('line_locate_point', ''))
 
 
+# ---- C19: extremes
+
+@obligation('C19', 'extremes_real', 'Extremes::extremes for geometries whose exterior traversal has 0-3 (thorough: 4) coordinates of ANY real value: None exactly when there is none; otherwise each of x_min / y_min / x_max / y_max names the FIRST position of the EXTERIOR traversal (not of the full traversal) attaining that bound, together with the coordinate found there (each path re-executed from scratch)')
+def o_extremes(mir, tier, seed):
+    from mir2smt import SliceIter
+    T = RealTheory()
+    fn = mir.find('geo', r'extremes::<impl at [^>]*>::extremes')
+    bad, npaths = [], 0
+    for n in ((0, 1, 2, 3) if tier == 'quick' else (0, 1, 2, 3, 4)):
+        ext = [coord(T, 'e%d_%d_' % (n, i)) for i in range(n)]
+        decoy = [coord(T, 'hole%d_%d_' % (n, i)) for i in range(1)]
+        uf = {'re:<G as (algorithm::)?coords_iter::CoordsIter>::exterior_coords_iter': lambda ip, d, ext=ext: SliceIter([list(c) for c in ext]),
+              're:<G as (algorithm::)?coords_iter::CoordsIter>::coords_iter': lambda ip, d, ext=ext, decoy=decoy: SliceIter([list(c) for c in decoy + ext])}
+        ip = Interp(mir, T, EXTRA, uf)
+        ip.max_steps = 100000
+        res = ip.explore(fn, lambda: [Ref(lambda: ('geometry',))])
+        npaths += len(res)
+        bad.append(z3.Not(z3.Or([pc for pc, _, _ in res])))
+        for pc, r, _ in res:
+            r = deref(r)
+            if n == 0:
+                if not variant_is(r, 'None'):
+                    bad.append(pc)
+                continue
+            if not variant_is(r, 'Some'):
+                bad.append(pc)
+                continue
+            out = deref(r.fields[0])             # Outcome { x_min, y_min, x_max, y_max }, each Extreme { index, coord }
+            conds = []
+            for slot, (axis, lower) in enumerate([(0, True), (1, True), (0, False), (1, False)]):
+                ex = deref(out[slot])
+                idx, cd = deref(ex[0]), deref(ex[1])
+                if not isinstance(idx, int) or not (0 <= idx < n):
+                    conds.append(z3.BoolVal(False))
+                    continue
+                v = ext[idx][axis]
+                conds += [cd[0] == ext[idx][0], cd[1] == ext[idx][1]]
+                for j in range(n):
+                    if lower:
+                        conds.append(v < ext[j][axis] if j < idx else v <= ext[j][axis])
+                    else:
+                        conds.append(v > ext[j][axis] if j < idx else v >= ext[j][axis])
+            bad.append(z3.And(pc, z3.Not(z3.And(conds))))
+    st, info, model = check_unsat('extremes_real', [z3.Or(bad)])
+    return dict(theory='Real (linear); coordinates arbitrary; the two traversals uninterpreted (the full traversal carries an extra coordinate in front)', functions=['Extremes for G: CoordsIter (blanket impl)'], paths=npaths, status=st, info=info, model=None, replay=('extremes', ''))
+
+
 # ---- C05 kernels
 
 @obligation('C05', 'line_determinant_int', 'for ALL integers: Line::determinant() = start.x*end.y - start.y*end.x (the shoelace term)')
@@ -2063,6 +2115,29 @@ def o_compose(mir, tier, seed):
     st, info, model = check_unsat('affine_compose_apply_int', [bad])
     return dict(theory='Int (unbounded)', functions=['AffineTransform::compose', 'AffineTransform::apply'], paths=1, status=st, info=info,
                 model=model_ints(model, mat_entries(A) + mat_entries(B) + p), replay=('compose_apply_i64', 'abp'))
+
+
+@obligation('C13', 'affine_compose_many_int', 'for ALL integer matrices a, b1..bk (k = 0..3) and points p: a.compose_many(&[b1, .., bk]).apply(p) = bk.apply(.. b1.apply(a.apply(p)) ..) - the slice is composed left to right onto a')
+def o_compose_many(mir, tier, seed):
+    T = IntTheory()
+    extra = dict(EXTRA)
+    extra[r'<affine_ops::AffineTransform<\w+> as Default>::default'] = ('geo', r'affine_ops::<impl at [^>]*>::default')
+    cm, apply_ = mir.find('geo', AFF + 'compose_many'), mir.find('geo', AFF + 'apply')
+    bad, npaths = [], 0
+    for k in (0, 1, 2, 3):
+        ip = Interp(mir, T, extra)
+        A = sym_matrix(T, 'a%d' % k)
+        Bs = [sym_matrix(T, 'b%d_%d' % (k, i)) for i in range(k)]
+        p = coord(T, 'p%d' % k)
+        M = call1(ip, cm, [Ref(lambda A=A: A), Ref(lambda Bs=Bs: Bs)])
+        lhs = call1(ip, apply_, [Ref(lambda M=M: M), p])
+        cur = call1(ip, apply_, [Ref(lambda A=A: A), p])
+        for B in Bs:
+            cur = call1(ip, apply_, [Ref(lambda B=B: B), cur])
+        npaths += 1
+        bad.append(z3.Or(lhs[0] != cur[0], lhs[1] != cur[1]))
+    st, info, model = check_unsat('affine_compose_many_int', [z3.Or(bad)])
+    return dict(theory='Int (unbounded, nonlinear products of matrix entries)', functions=['AffineTransform::compose_many', 'its fold closure', 'AffineTransform::compose', 'Default for AffineTransform'], paths=npaths, status=st, info=info, model=None, replay=('compose_many_i64', ''))
 
 
 @obligation('C13', 'affine_identity_neutral_int', 'for ALL integer matrices a: identity().compose(&a) = a = a.compose(&identity()), identity().apply(p) = p, and is_identity() holds exactly for the identity matrix')
